@@ -38,6 +38,19 @@ def gen_ranges(rng, lo, hi, nmax=3, strings=True):
     return out
 
 
+def hull(ref):
+    """(lo, hi) of the first alternative of a range / size refinement"""
+    a, b = ref[1][0]
+    return a.value, (b.value if b is not None else a.value)
+
+
+def sub_ranges(rng, lo, hi, nmax=2, strings=True):
+    """refinement nested inside [lo, hi]; None when there is no room"""
+    if hi - lo < 1:
+        return None
+    return gen_ranges(rng, lo, hi, nmax, strings)
+
+
 def gen_enum(g, n=None):
     rng = g.rng
     n = n or rng.randint(1, 6)
@@ -130,16 +143,24 @@ def gen_type(g, mod):
             sub = rng.sample(parent.enum, rng.randint(1, len(parent.enum)))
             syn.ref = ('enum', sorted(sub, key=lambda x: parent.enum.index(x)))
         elif parent.base == 'Integer32' and not parent.enum and r < 0.3 and parent.written_base != 'Counter64':
-            lo, hi = parent.bounds
-            syn.ref = ('range', gen_ranges(rng, lo, hi, 2))
+            lo, hi = parent.int_hull
+            rr = sub_ranges(rng, lo, hi)
+            if rr:
+                syn.ref = ('range', rr)
         elif parent.base == 'OctetString' and r < 0.3 and not parent.fixed_ip:
-            syn.ref = ('size', gen_ranges(rng, 0, 255, 2))
+            lo, hi = parent.size_hull
+            rr = sub_ranges(rng, lo, min(hi, 255) if hi > 255 and lo <= 255 else hi)
+            if rr:
+                syn.ref = ('size', rr)
         chain = parent.chain + 1
         enum = syn.ref[1] if (syn.ref and syn.ref[0] == 'enum') else parent.enum
         bits = parent.bits
         bounds = parent.bounds
         wb = parent.written_base
         fixed_ip = parent.fixed_ip
+        int_hull = hull(syn.ref) if (syn.ref and syn.ref[0] == 'range') else parent.int_hull
+        size_hull = hull(syn.ref) if (syn.ref and syn.ref[0] == 'size') else parent.size_hull
+        is_tc_chain = parent.is_tc_chain
     else:
         syn = builtin_syntax(g, mod, allow_bits=True)
         if 'tags' in g.f and syn.kind == 'type' and syn.written in ('INTEGER', 'OCTET STRING', 'Integer32') \
@@ -152,7 +173,13 @@ def gen_type(g, mod):
         wb = syn.written
         bounds = INT_BOUNDS.get(syn.written, (0, 0))
         fixed_ip = syn.written == 'IpAddress'
-    if rng.random() < 0.55:
+        int_hull = hull(syn.ref) if (syn.ref and syn.ref[0] == 'range') else bounds
+        size_hull = hull(syn.ref) if (syn.ref and syn.ref[0] == 'size') else (4, 4) if fixed_ip else (0, 65535)
+        is_tc_chain = False
+    make_tc = rng.random() < 0.55
+    if make_tc and is_tc_chain and 'tc_from_tc' not in g.f:
+        make_tc = False         # SMIv2: a TC must not refine another TC (stress switch)
+    if make_tc:
         d = Decl('tc', name, syntax=syn)
         g.common(d, mod, 'TEXTUAL-CONVENTION')
         d.display = None
@@ -167,6 +194,8 @@ def gen_type(g, mod):
             pass
     d.base, d.enum, d.bits, d.chain, d.bounds = syn.base, enum, bits, chain, bounds
     d.written_base, d.fixed_ip = wb, fixed_ip
+    d.int_hull, d.size_hull = int_hull, size_hull
+    d.is_tc_chain = is_tc_chain or d.kind == 'tc'
     d.module_name = mod.name
     mod.decls.append(d)
     g.types.setdefault(mod.name, []).append(d)
@@ -191,9 +220,16 @@ def object_syntax(g, mod):
             sub = rng.sample(t.enum, rng.randint(1, len(t.enum)))
             syn.ref = ('enum', sorted(sub, key=lambda x: t.enum.index(x)))
         elif t.base == 'Integer32' and not t.enum and rr < 0.25 and t.written_base != 'Counter64':
-            syn.ref = ('range', gen_ranges(rng, t.bounds[0], t.bounds[1], 2))
+            r2 = sub_ranges(rng, t.int_hull[0], t.int_hull[1])
+            if r2:
+                syn.ref = ('range', r2)
         elif t.base == 'OctetString' and rr < 0.25 and not t.fixed_ip:
-            syn.ref = ('size', gen_ranges(rng, 0, 255, 2))
+            lo, hi = t.size_hull
+            r2 = sub_ranges(rng, lo, min(hi, 255) if hi > 255 and lo <= 255 else hi)
+            if r2:
+                syn.ref = ('size', r2)
+        syn.int_hull = hull(syn.ref) if (syn.ref and syn.ref[0] == 'range') else t.int_hull
+        syn.size_hull = hull(syn.ref) if (syn.ref and syn.ref[0] == 'size') else t.size_hull
         syn.enum = syn.ref[1] if (syn.ref and syn.ref[0] == 'enum') else t.enum
         syn.bits_eff = t.bits
         syn.bounds = t.bounds
@@ -206,12 +242,17 @@ def object_syntax(g, mod):
         syn.enum = [('true', 1), ('false', 2)] if tc == 'TruthValue' else None
         syn.bits_eff = None
         syn.bounds = (1, 2)
+        syn.int_hull = (1, 2)
+        syn.size_hull = {'DisplayString': (0, 255), 'MacAddress': (6, 6)}.get(tc, (0, 65535))
         syn.chain = 1
         return syn
     syn = builtin_syntax(g, mod)
     syn.enum = syn.ref[1] if (syn.ref and syn.ref[0] == 'enum') else None
     syn.bits_eff = syn.bits
     syn.bounds = INT_BOUNDS.get(syn.written, (0, 0))
+    syn.int_hull = hull(syn.ref) if (syn.ref and syn.ref[0] == 'range') else syn.bounds
+    syn.size_hull = hull(syn.ref) if (syn.ref and syn.ref[0] == 'size') else (
+        (4, 4) if syn.written == 'IpAddress' else (0, 65535))
     syn.chain = 0
     return syn
 
@@ -233,10 +274,7 @@ def maybe_defval(g, mod, d):
             else:
                 d.defval = DefVal('number', val, spelling=str(val))
             return
-        lo, hi = getattr(syn, 'bounds', (0, 0))
-        if syn.ref and syn.ref[0] == 'range':
-            a, b = syn.ref[1][0]
-            lo, hi = a.value, (b.value if b is not None else a.value)
+        lo, hi = getattr(syn, 'int_hull', getattr(syn, 'bounds', (0, 0)))
         v = pick_int(rng, lo, hi)
         if v == 0 and 'defval_zero' not in f:
             v = 1 if lo <= 1 <= hi else (hi if hi != 0 else lo)
@@ -256,18 +294,31 @@ def maybe_defval(g, mod, d):
                 getattr(getattr(syn, 'parent_decl', None), 'fixed_ip', False):
             d.defval = DefVal('hex', 0x0a000001, spelling="'0A000001'h")
             return
+        slo, shi = getattr(syn, 'size_hull', (0, 65535))
+        shi = min(shi, slo + 12, 40) if shi >= slo else slo
+        if slo > 40:
+            return
         r = rng.random()
         if r < 0.5:
-            s = g.text(rng)
-            if s == '' and 'defval_empty_string' not in f:
-                s = 'x'
-            d.defval = DefVal('string', s)
+            n = rng.randint(slo, max(slo, shi))
+            s_ = ''.join(rng.choice('abcdefghij klmnop') for _ in range(n))
+            if s_ == '' and 'defval_empty_string' not in f:
+                if shi < 1:
+                    return
+                s_ = 'x' * max(1, slo)
+            d.defval = DefVal('string', s_)
         elif r < 0.85:
-            n = rng.randint(0 if 'defval_empty_hex' in f else 1, 6)
+            n = rng.randint(slo, max(slo, shi))
+            if n == 0 and 'defval_empty_hex' not in f:
+                if shi < 1:
+                    return
+                n = max(1, slo)
             digits = ''.join(rng.choice('0123456789ABCDEFabcdef') for _ in range(2 * n))
             d.defval = DefVal('hex', int(digits, 16) if digits else 0, spelling="'%s'%s" % (digits, rng.choice('hH')))
         elif 'defval_bin_octets' in f:
-            n = rng.randint(1, 3)
+            if shi < 1:
+                return
+            n = rng.randint(max(1, slo), max(1, slo, min(shi, max(1, slo) + 2)))
             digits = ''.join(rng.choice('01') for _ in range(8 * n))
             d.defval = DefVal('bin', int(digits, 2), spelling="'%s'%s" % (digits, rng.choice('bB')))
     elif base == 'Bits':
